@@ -3,10 +3,38 @@ package main
 // C12: resumable subscriptions (SubscribeWithReplay).
 
 import (
+	"go/types"
 	"strings"
 
 	"golang.org/x/tools/go/ssa"
 )
+
+// funcOfValue: the function a function value denotes — a closure, a function, or the method
+// behind a bound method value (x.m).
+func funcOfValue(v ssa.Value) *ssa.Function {
+	switch x := stripConv(v).(type) {
+	case *ssa.Function:
+		return x
+	case *ssa.MakeClosure:
+		fn, _ := x.Fn.(*ssa.Function)
+		if fn != nil && strings.Contains(fn.Synthetic, "bound method wrapper") {
+			for _, b := range fn.Blocks {
+				for _, in := range b.Instrs {
+					if ci, ok := in.(ssa.CallInstruction); ok {
+						if sc := ci.Common().StaticCallee(); sc != nil {
+							if o := sc.Origin(); o != nil {
+								return o
+							}
+							return sc
+						}
+					}
+				}
+			}
+		}
+		return fn
+	}
+	return nil
+}
 
 func checkResume(c *Ctx, p *Prog, R *BusRoles) {
 	f := p.Func(PkgBus, "SubscribeWithReplay")
@@ -85,12 +113,15 @@ func checkResume(c *Ctx, p *Prog, R *BusRoles) {
 	}
 	// closures: the replay callback and the live wrapper
 	var replayCb, liveWrap *ssa.Function
-	if mc, ok := stripConv(replay.Common().Args[3]).(*ssa.MakeClosure); ok {
-		replayCb = mc.Fn.(*ssa.Function)
-	}
+	replayCb = funcOfValue(replay.Common().Args[3])
 	if len(subscribe.Common().Args) >= 2 {
-		if mc, ok := stripConv(subscribe.Common().Args[1]).(*ssa.MakeClosure); ok {
-			liveWrap = mc.Fn.(*ssa.Function)
+		liveWrap = funcOfValue(subscribe.Common().Args[1])
+	}
+	// the user's handler: the function-typed parameter of SubscribeWithReplay
+	handlerType := ""
+	for _, prm := range f.Params {
+		if _, isSig := prm.Type().Underlying().(*types.Signature); isSig && handlerType == "" {
+			handlerType = typeName(prm.Type())
 		}
 	}
 	if replayCb == nil || liveWrap == nil {
@@ -111,12 +142,8 @@ func checkResume(c *Ctx, p *Prog, R *BusRoles) {
 				if call.Common().IsInvoke() && call.Common().Method.Name() == "SaveOffset" {
 					save = call
 				}
-				if isDynamicCall(call.Common()) {
-					if ld, ok := stripConv(call.Common().Value).(*ssa.UnOp); ok {
-						if fv, ok := ld.X.(*ssa.FreeVar); ok && fv.Name() == "handler" {
-							user = call
-						}
-					}
+				if isDynamicCall(call.Common()) && handlerType != "" && typeName(call.Common().Value.Type()) == handlerType {
+					user = call
 				}
 			}
 		}
@@ -139,10 +166,16 @@ func checkResume(c *Ctx, p *Prog, R *BusRoles) {
 		}
 		// the id
 		idOK := false
-		if ld, ok := stripConv(save.Common().Args[1]).(*ssa.UnOp); ok {
-			if fv, ok := ld.X.(*ssa.FreeVar); ok && fv.Name() == f.Params[2].Name() {
-				idOK = true
+		var idParam *ssa.Parameter
+		for _, prm := range f.Params {
+			if isBasicKind(prm.Type(), types.String) && idParam == nil {
+				idParam = prm
 			}
+		}
+		if idParam != nil {
+			want := flow.Origins(idParam)
+			got := flow.Origins(save.Common().Args[1])
+			idOK = len(want) > 0 && strings.Join(want, ",") == strings.Join(got, ",")
 		}
 		c.Check(idOK, "C12.R2", "SubscribeWithReplay/"+cl.name+"/saves-under-its-own-id", p.Pos(save.Pos()), "the offset is saved under the caller's subscription id", "the offset is not saved under the caller's subscription id (ids no longer progress independently)")
 	}
